@@ -10,6 +10,7 @@ import gem
 import harness
 import mutate
 import refscan
+import shim
 import updgen
 from harness import Part, ok, violation, skip
 
@@ -100,7 +101,9 @@ def case(draw):
         o = draw(updgen.update_opts(state))
         ed = draw(updgen.edits(state)) if i > 0 or draw(st.booleans()) else []
         rounds.append({'edits': ed, 'opts': o})
-    return {'state': state, 'rounds': rounds}
+    return {'state': state, 'rounds': rounds,
+            'scandir': draw(st.sampled_from([None, 'sorted', 'reversed',
+                                             'a', 'b']))}
 
 
 def strat(tier):
@@ -160,7 +163,11 @@ def run_case(desc):
                 break
             create = (state['mode'] == 'none' and i == 0)
             trigger = dedup_trigger_paths(root)
-            oc = updgen.run_update(root, o, create=create)
+            if desc.get('scandir'):
+                with shim.ScandirOrder(desc['scandir']):
+                    oc = updgen.run_update(root, o, create=create)
+            else:
+                oc = updgen.run_update(root, o, create=create)
             what = (f'round {i} ({"create" if create else "update"} '
                     f'{o["target"]!r} via {o["api"]}, hashes {o["hashes"]})')
             if oc.kind in ('gemato', 'mismatch', 'incompatible', 'loop',
